@@ -371,9 +371,22 @@ func (p *Proxy) handleConnectRequest(ctx *Context, req *http.Request, session *S
 
 		log.Debugf("martian: completed MITM for connection: %s", req.Host)
 
+		// Like readRequest, wait for the first byte of the tunnel in a goroutine so
+		// that a shutdown does not have to wait for an idle client (or for the
+		// connection deadline).
 		b := make([]byte, 1)
-		if _, err := brw.Read(b); err != nil {
-			log.Errorf("martian: error peeking message through CONNECT tunnel to determine type: %v", err)
+		peekc := make(chan error, 1)
+		go func() {
+			_, err := brw.Read(b)
+			peekc <- err
+		}()
+		select {
+		case err := <-peekc:
+			if err != nil {
+				log.Errorf("martian: error peeking message through CONNECT tunnel to determine type: %v", err)
+			}
+		case <-p.closing:
+			return errClose
 		}
 
 		// Drain all of the rest of the buffered data.
